@@ -520,7 +520,7 @@ func project(files map[string]string, entry, mode string) *fe.Project {
 func Run(c *vl.Ctx) {
 	quick := c.Quick()
 	if quick {
-		c.SetBudget(75 * time.Second)
+		c.SetBudget(300 * time.Second)
 	} else {
 		c.SetBudget(13 * time.Minute)
 	}
